@@ -12,7 +12,7 @@ type zzReqSpec struct {
 	method string
 }
 
-var zzKindMethod = []string{"S.Echo", "S.EchoRet", "S.EchoCtx", "S.Fail", "S.Nope", "", "S.Watch", "S.Echo"}
+var zzKindMethod = []string{"S.Echo", "S.EchoRet", "S.EchoCtx", "S.Fail", "S.Nope", "", "S.Watch", "S.Echo", "S.BadReply"}
 
 // kind 7: a request the server rejects (upgrade byte 0x40 = NoResponse alone is not a combination
 // the protocol uses): dropped without execution and without response.
@@ -30,7 +30,9 @@ func zzH_SRV() {
 	if vParam("srv.pipelining", 0) == 1 {
 		pipelining = true
 	}
-	s, svc := zzNewServer(log, pipelining, directIO, false, shared)
+	// NoCopy hands the handler the read buffer itself; it stays the handler's until the handler returns
+	noCopy := vParam("srv.nocopy", 0) == 1 && vChoose("noCopy", 2) == 1
+	s, svc := zzNewServer(log, pipelining, directIO, noCopy, shared)
 	svc.yield = true
 	exact := vParam("srv.exactfit", 0) == 1
 	bufSize := []int{8, 64, 16, 32}[vChoose("bufsize", vParam("srv.bufsizes", 2))]
@@ -40,12 +42,22 @@ func zzH_SRV() {
 	s.SetBufferSize(bufSize)
 	m := newZZMsgs(8)
 	m.yieldW = false
-	codec := NewServerCodec(&zzBytesCodec{}, nil, m, true, bufSize)
+	var enc Encoder
+	switch vChoose("header-encoder", vParam("srv.encoders", 1)) {
+	case 1:
+		enc = NewHeaderEncoder("pb")()
+	case 2:
+		enc = NewHeaderEncoder("code")()
+	}
+	codec := NewServerCodec(&zzBytesCodec{}, enc, m, true, bufSize)
 	reqs := make([]zzReqSpec, n)
 	for i := 0; i < n; i++ {
 		k := vChoose("kind", kinds)
 		if vParam("srv.menu", 0) == 1 {
 			k = []int{0, 7, 5}[k%3] // directed menu: plain call, rejected frame, ping
+		}
+		if vParam("srv.menu", 0) == 2 {
+			k = []int{8, 3, 0}[k%3] // directed menu: unencodable reply, failing handler, plain call
 		}
 		r := zzReqSpec{seq: uint64(i + 1), kind: k, method: zzKindMethod[k]}
 		if k != 5 {
@@ -55,6 +67,12 @@ func zzH_SRV() {
 				// request frame = 12 + len(args) bytes: exactly the capacity of the 16/32-byte read
 				// buffer; contents concrete and distinct per request
 				r.args = make([]byte, []int{4, 20}[vChoose("arglen-exact", 2)])
+				for x := range r.args {
+					r.args[x] = byte(0x41 + i)
+				}
+			} else if vParam("srv.concrete", 0) == 1 {
+				// concrete, distinct contents: no forking on argument equality (directed runs)
+				r.args = make([]byte, []int{1, 10, 4, 20}[vChoose("arglen", vParam("srv.arglens", 2))])
 				for x := range r.args {
 					r.args[x] = byte(0x41 + i)
 				}
@@ -74,7 +92,7 @@ func zzH_SRV() {
 		if r.kind == 7 {
 			upg = zzUpgBytes(0x40)
 		}
-		m.deliver(zzRequest(r.seq, upg, r.method, r.args))
+		m.deliver(zzRequestEnc(enc, r.seq, upg, r.method, r.args))
 		if !together {
 			vQuiesce()
 		}
@@ -83,7 +101,7 @@ func zzH_SRV() {
 	m.fail(io.EOF)
 	vAtEnd(func() {
 		vAssert(vBlocked() == 0, "server-goroutines-exit")
-		res := zzDecodeResponses(m)
+		res := zzDecodeResponsesEnc(m, enc)
 		nrej := 0
 		for _, r := range reqs {
 			if r.kind == 7 {
@@ -110,6 +128,8 @@ func zzH_SRV() {
 						vAssert(res[j].Error == "" && len(res[j].Reply) == 0, "ping-empty")
 					case 6:
 						vAssert(res[j].Error == "is not *[]byte", "undecodable-args-text")
+					case 8:
+						vAssert(res[j].Error == "is not *[]byte", "unencodable-reply-text")
 					}
 					if pipelining && r.kind != 5 {
 						// position among the responses to non-ping requests = position among the non-ping requests
@@ -135,7 +155,7 @@ func zzH_SRV() {
 			}
 			vAssert(cnt == 1, "answered-exactly-once")
 			// executions
-			if r.kind <= 3 {
+			if r.kind <= 3 || r.kind == 8 {
 				nexec++
 			}
 		}
@@ -151,15 +171,17 @@ func zzH_SRV() {
 			}
 		}
 		vAssert(len(log.execs) == nexec, "no-extra-or-missing-execution")
-		for e := range log.execs {
-			vAssert(vEqBytes(log.execs[e].args, log.execs[e].snap), "handler-args-stable")
+		if !noCopy {
+			for e := range log.execs {
+				vAssert(vEqBytes(log.execs[e].args, log.execs[e].snap), "handler-args-stable")
+			}
 		}
 		if pipelining {
 			vAssert(!log.overlap, "pipelined-no-overlap")
 			// execution order = arrival order
 			e := 0
 			for _, r := range reqs {
-				if r.kind <= 3 {
+				if r.kind <= 3 || r.kind == 8 {
 					vAssert(e < len(log.execs) && vEqBytes(log.execs[e].snap, r.args), "pipelined-execution-order")
 					e++
 				}
@@ -219,6 +241,59 @@ func zzH_SRVp() {
 			vAssert(vEqBytes(log.execs[i].snap, args[i]), "pipelined-execution-order")
 		}
 		vAssert(!log.overlap, "pipelined-no-overlap")
+		vReach("end")
+	})
+}
+
+// ZZGate is a handler that blocks until the harness opens its gate.
+func (s *ZZSvc) Gate(req *[]byte, res *[]byte) error {
+	s.log.enter("Gate", *req)
+	<-s.gate
+	*res = zzReplyFor(*req)
+	s.log.leave()
+	return nil
+}
+
+// zzH_SRVp2: poll mode with pipelining and TWO connections: a call on connection A blocks in its
+// handler until the call on connection B has been answered. Connections are independent, so B must be
+// answered while A is still executing.
+func zzH_SRVp2() {
+	log := &zzLog{}
+	directIO := vChoose("directIO", 2) == 1
+	s, svc := zzNewServer(log, true, directIO, false, false)
+	s.poll = vChoose("poll", 2) == 1
+	svc.gate = make(chan struct{})
+	ma, mb := newZZMsgs(8), newZZMsgs(8)
+	ma.yieldW, mb.yieldW = false, false
+	mb.out = make(chan []byte, 4)
+	lis := newZZListener()
+	if s.poll {
+		lis.poll = []*zzMsgs{ma, mb}
+	} else {
+		lis.conns <- &zzConn{m: ma}
+		lis.conns <- &zzConn{m: mb}
+	}
+	vGo("listen", func() {
+		s.listen(&zzSocket{lis: lis}, "zz", func(messages socket_Messages) ServerCodec {
+			return NewServerCodec(&zzBytesCodec{}, nil, messages, s.directIO, 64)
+		})
+	})
+	ma.deliver(zzRequest(1, nil, "S.Gate", []byte{0x41}))
+	vQuiesce()
+	mb.deliver(zzRequest(1, nil, "S.Echo", []byte{0x42}))
+	f := <-mb.out // B's response arrives although A's handler is still blocked
+	var rb pbResponse
+	rb.Unmarshal(f)
+	vAssert(rb.Seq == 1 && vEqBytes(rb.Reply, []byte{0x52, 0x42}), "other-connection-served-while-one-is-busy")
+	close(svc.gate)
+	vQuiesce()
+	ma.fail(io.EOF)
+	mb.fail(io.EOF)
+	vQuiesce()
+	s.Close()
+	vAtEnd(func() {
+		ra := zzDecodeResponses(ma)
+		vAssert(len(ra) == 1 && vEqBytes(ra[0].Reply, []byte{0x52, 0x41}), "reply-of-own-args")
 		vReach("end")
 	})
 }
